@@ -24,7 +24,17 @@ ASSUMPTIONS = ['TlbSchema.tla is a hand transcription of block.tlb (tags prefix-
                'attribute paths: block.tlb field names with the aliases listed in tlbkit.ALIAS; representation (bytes / hex string / int for '
                'bit fields, {} / None for an empty dictionary) is normalised, content is compared by TLC',
                'constructor names themselves are not compared (the library uses its own labels); covered types are listed in evidence']
+class _WF0:
+    deserialize = staticmethod(lambda s: Cf.WorkchainFormat.deserialize(s, 0))
+
+
+class _WF1:
+    deserialize = staticmethod(lambda s: Cf.WorkchainFormat.deserialize(s, 1))
+
+
 CLS = {
+    'WorkchainFormat0': _WF0, 'WorkchainFormat1': _WF1, 'WcSplitMergeTimings': Cf.WcSplitMergeTimings, 'WorkchainDescr': Cf.WorkchainDescr,
+    'ConsensusConfig': Cf.ConsensusConfig,
     'StorageUsedShort': A.StorageUsedShort, 'StorageUsed': A.StorageUsed, 'StorageInfo': A.StorageInfo, 'AccStatusChange': T.AccStatusChange,
     'AccountStatus': A.AccountStatus, 'TrStoragePhase': T.TrStoragePhase, 'TrCreditPhase': T.TrCreditPhase, 'TrBouncePhase': T.TrBouncePhase,
     'ComputeSkipReason': T.ComputeSkipReason, 'TrComputePhase': T.TrComputePhase, 'TrActionPhase': T.TrActionPhase, 'SplitMergeInfo': T.SplitMergeInfo,
